@@ -3,6 +3,7 @@ package pos
 import (
 	"fmt"
 	"github.com/pokt-network/posmint/x/pos/keeper"
+	"sort"
 	"time"
 
 	sdk "github.com/pokt-network/posmint/types"
@@ -105,7 +106,15 @@ func InitGenesis(ctx sdk.Ctx, keeper keeper.Keeper, supplyKeeper types.AuthKeepe
 		},
 	)
 	// update signing information from genesis state
-	for addr, info := range data.SigningInfos {
+	// (both maps are walked in sorted key order: the order in which keys are first written to the
+	// store determines the shape of the IAVL tree and with it the app hash)
+	signingInfoAddrs := make([]string, 0, len(data.SigningInfos))
+	for addr := range data.SigningInfos {
+		signingInfoAddrs = append(signingInfoAddrs, addr)
+	}
+	sort.Strings(signingInfoAddrs)
+	for _, addr := range signingInfoAddrs {
+		info := data.SigningInfos[addr]
 		address, err := sdk.AddressFromHex(addr)
 		if err != nil {
 			panic(err)
@@ -113,7 +122,13 @@ func InitGenesis(ctx sdk.Ctx, keeper keeper.Keeper, supplyKeeper types.AuthKeepe
 		keeper.SetValidatorSigningInfo(ctx, address, info)
 	}
 	// update missed block information from genesis state
-	for addr, array := range data.MissedBlocks {
+	missedBlockAddrs := make([]string, 0, len(data.MissedBlocks))
+	for addr := range data.MissedBlocks {
+		missedBlockAddrs = append(missedBlockAddrs, addr)
+	}
+	sort.Strings(missedBlockAddrs)
+	for _, addr := range missedBlockAddrs {
+		array := data.MissedBlocks[addr]
 		address, err := sdk.AddressFromHex(addr)
 		if err != nil {
 			panic(err)
